@@ -21,6 +21,11 @@ struct Out {
 // which copy of programs and library a run uses: 0 = clang -O1 -DNDEBUG, 1 = clang -O0 with unsigned plain char, 2 = gcc -O2 -DNDEBUG
 // (one draw whatever the outcome, so that plans of other seeds keep the rest of their shape)
 static int pick_copy(Rng &r, double p_other) { double x = (double)r.below(1000000) / 1e6; return x < p_other * 0.55 ? 1 : x < p_other ? 2 : 0; }
+static uint64_t pick_epoch(Rng &r) {
+    if (!r.chance(0.04)) return 1700000000ULL;
+    static const uint64_t e[] = {2147483647ULL - 3, 2147483648ULL + 1000, 2208988800ULL, 4102444800ULL, 4294967295ULL - 3, 4294967296ULL + 1000};
+    return e[r.below(6)];
+}
 static std::string sched_str(Rng &r) {
     switch (r.below(6)) {
     case 0: return strf("rand:%.2f", 0.02 + 0.01 * r.below(10));
@@ -199,8 +204,8 @@ static std::string gen_tunnel(uint64_t seed, uint64_t idx, bool thorough) {
     int stackfill = r.chance(0.6) ? 0xA5 : (int[]){0x00, 0x00, 0xFF, 0x01}[r.below(4)];
     int port = r.chance(0.3) ? (int)(int[]){1025, 17221, 20000, 40000, 65535}[r.below(5)] : 0;
     int addr = r.chance(0.3) ? (int)r.range(1, 3) : 0;  // destination MAC / IP address variants (multicast bit, bytes >= 0x80, octets 0 and 255)
-    o.line(strf("cfg scen=tunnel env=%d addr=%d port=%d longnames=%d argorder=%d stackfill=%d udp=%d fd=%d tscf=%d count=%d o0=%d ethpad=%d read0=%.2f clkgran=%llu sched=%s lat=%llu:%llu cost=%llu:%llu qcap=%zu tend=%llu rseed=0x%llx skew0=%lld skew1=%lld",
-                (int)r.chance(0.25), addr, port, (int)r.chance(0.3), (int)r.coin(), stackfill, udp, fd, tscf, count, pick_copy(r, 0.3), (int)(!udp && r.chance(0.4)), read0, (unsigned long long)clkgran, sched_str(r).c_str(), (unsigned long long)lat_lo, (unsigned long long)lat_hi,
+    o.line(strf("cfg scen=tunnel epoch=%llu env=%d addr=%d port=%d longnames=%d argorder=%d stackfill=%d udp=%d fd=%d tscf=%d count=%d o0=%d ethpad=%d read0=%.2f clkgran=%llu sched=%s lat=%llu:%llu cost=%llu:%llu qcap=%zu tend=%llu rseed=0x%llx skew0=%lld skew1=%lld",
+                (unsigned long long)pick_epoch(r), (int)r.chance(0.25), addr, port, (int)r.chance(0.3), (int)r.coin(), stackfill, udp, fd, tscf, count, pick_copy(r, 0.3), (int)(!udp && r.chance(0.4)), read0, (unsigned long long)clkgran, sched_str(r).c_str(), (unsigned long long)lat_lo, (unsigned long long)lat_hi,
                 (unsigned long long)r.range(50, 500), (unsigned long long)r.range(500, 20000), qcap, (unsigned long long)tend,
                 (unsigned long long)r.next(), (long long)big_skew(r), (long long)big_skew(r)));
     for (auto &f : frames) o.line(f);
@@ -585,7 +590,10 @@ static std::string gen_c18(uint64_t seed, uint64_t idx, bool thorough) {
         return o.s;
     }
     uint64_t rseed = r.next();
-    uint64_t t_origin = 1700000000ULL * 1000000000ULL + (rseed % 1000000007ULL) * 1000ULL;
+    // the date of the run: usually late 2023, in a few runs around or beyond the dates at which 32-bit second counters end
+    // (2038-01-19 signed, 2106-02-07 unsigned) - the programs convert between nanosecond timestamps and struct timespec
+    uint64_t epoch = pick_epoch(r);
+    uint64_t t_origin = epoch * 1000000000ULL + (rseed % 1000000007ULL) * 1000ULL;
     int count = scen == "can" ? (int)(r.chance(0.5) ? 1 : r.range(1, fd ? 6 : 12)) : 1;
     int mtt = (int)(r.chance(0.5) ? 0 : r.range(1, 60));
     // time scales (ns)
@@ -616,8 +624,8 @@ static std::string gen_c18(uint64_t seed, uint64_t idx, bool thorough) {
     if (backlog) lstack = 128;
     // what a never-written local variable reads: mostly 0xA5 (a wild value), sometimes zero or small values (what a real, used stack tends to hold)
     int stackfill = r.chance(0.6) ? 0xA5 : (int[]){0x00, 0x00, 0xFF, 0x01}[r.below(4)];
-    o.line(strf("cfg scen=%s env=%d argorder=%d stackfill=%d udp=%d fd=%d tscf=%d count=%d mtt=%d cantxq=%d lstack=%d o0=%d ethpad=%d sched=%s lat=%llu:%llu cost=%llu:%llu qcap=%zu tend=%llu drain=%llu quiet=%llu rseed=0x%llx skew0=%lld skew1=%lld skew2=%lld",
-                scen.c_str(), (int)r.chance(0.25), (int)r.coin(), stackfill, udp, fd, tscf, count, mtt, cantxq, lstack, pick_copy(r, 0.35), (int)(!udp && r.chance(0.3)), sched_str(r).c_str(), (unsigned long long)r.range(1000, 50000),
+    o.line(strf("cfg scen=%s epoch=%llu outfault=%.2f env=%d argorder=%d stackfill=%d udp=%d fd=%d tscf=%d count=%d mtt=%d cantxq=%d lstack=%d o0=%d ethpad=%d sched=%s lat=%llu:%llu cost=%llu:%llu qcap=%zu tend=%llu drain=%llu quiet=%llu rseed=0x%llx skew0=%lld skew1=%lld skew2=%lld",
+                scen.c_str(), (unsigned long long)epoch, r.chance(0.08) ? 0.02 + 0.03 * (double)r.below(7) : 0.0, (int)r.chance(0.25), (int)r.coin(), stackfill, udp, fd, tscf, count, mtt, cantxq, lstack, pick_copy(r, 0.35), (int)(!udp && r.chance(0.3)), sched_str(r).c_str(), (unsigned long long)r.range(1000, 50000),
                 (unsigned long long)r.range(50000, 1000000), (unsigned long long)r.range(50, 500), (unsigned long long)r.range(500, 20000), qcap,
                 (unsigned long long)tend, (unsigned long long)drain, (unsigned long long)t2, (unsigned long long)rseed, (long long)r.range(0, 20000000) - 10000000,
                 (long long)r.range(0, 20000000) - 10000000, (long long)r.range(0, 20000000) - 10000000));
